@@ -29,6 +29,7 @@ GUARD = "SQISIGN_SQISIGN2D_WEST_AC24_VERIF"
 # expression, _ = opaque.  A callee that touches a tracked array and is not listed here is refused.
 KINDS = {
     ("vla", ""): ("vla", None),
+    ("cond", "i"): ("read", None),                 # an opaque branch condition reads a tracked scalar
     ("copy_point", "ii"): ("copy", None), ("copy_point", "i_"): ("copyIn", None),
     ("xDBL_A24", "ii_"): ("dbl", None), ("xDBL_A24_normalized", "ii_"): ("dbl", None),
     ("xDBL_A24_normalized", "_i_"): ("read", None), ("xDBL_A24", "_i_"): ("read", None),
@@ -36,6 +37,8 @@ KINDS = {
     ("xeval_4", "AAn_"): ("eval4", None), ("xeval_4_singular", "AAni_"): ("eval4", [0]),
     ("xeval_4_singular", "__ni_"): ("read", [1]),
     ("xisog_2", "__i"): ("isog2", None),
+    # naive chain (ec_eval_small_chain): the scalar points big_K / small_K are slots 0 / 1 of a virtual tracked array
+    ("xeval_2", "iin_"): ("eval2", None), ("xeval_2_singular", "iin_"): ("eval2", None),
     # theta chains (arrays: points1/2, Q1/2, steps); with array ids every index is passed as (array id, index)
     ("copy_jac_point", "i_"): ("copyIn", None), ("copy_jac_point", "_i"): ("read", None),
     ("double_couple_jac_point_iter", "in_i"): ("dblIterP", None),
@@ -48,6 +51,9 @@ KINDS = {
     ("theta_isogeny_eval", "iii"): ("evalStep", None),
     ("theta_isogeny_eval", "_i_"): ("evalR", None),
     ("splitting_comput", "_i"): ("split", None),
+    # balanced recursion (theta_chain_comput_rec): R1/R2 (pointer + offset), the stacks P1/P2, out->steps
+    ("theta_isogeny_comput", "i_iinn"): ("stepR", None),
+    ("assign", "ii"): ("copyA", None),
 }
 
 
@@ -275,6 +281,13 @@ class Ctx:
         self.array_ids = None                      # name -> id: when set, every tracked index is passed as (id, index)
         self.field_arrays = {}                     # `x->steps[i]`: field name -> tracked array name
         self.returned = False
+        self.scalars = {}                          # tracked scalar objects: name -> slot of the virtual array "K"
+        self.dyn_oracle = False                    # opaque conditions inside `for` loops: oracle index depends on the loop variable
+        self.loopvars = []                         # stack of `for` loop variables (None for while loops)
+        self.ptrs = {}                             # tracked pointer parameters: name -> name of the integer offset parameter
+        self.lets = {}                             # int locals initialised once and never assigned again: name -> init expression
+        self.recursive = False
+        self.formals = []                          # formal parameter names of the function, in order
 
     # ---- int expressions: returns (binds, pure, ctype); binds = [(name, except_expr)]
     def fresh(self, binds):
@@ -288,6 +301,8 @@ class Ctx:
             n = e[1]
             if n in self.vars:
                 return "s.%s" % n, self.vars[n]
+            if n in self.lets:
+                return self.ie(self.lets[n], binds)
             if n in self.params:
                 return n, self.params[n]
             if n in self.consts:
@@ -420,6 +435,14 @@ class Ctx:
             e = e[2]
         while e[0] == "field":
             e = e[1]
+        if e[0] == "var" and e[1] in self.scalars:
+            return "K", ("lit", self.scalars[e[1]])
+        if e[0] == "var" and e[1] in self.ptrs:                                   # p, *p
+            return e[1], ("var", self.ptrs[e[1]])
+        if e[0] == "bin" and e[1] == "+" and e[2][0] == "var" and e[2][1] in self.ptrs:   # p + e
+            return e[2][1], ("bin", "+", ("var", self.ptrs[e[2][1]]), e[3])
+        if e[0] == "idx" and e[1][0] == "var" and e[1][1] in self.ptrs:           # p[e]
+            return e[1][1], ("bin", "+", ("var", self.ptrs[e[1][1]]), e[2])
         if e[0] == "var" and e[1] in self.tracked:
             return e[1], None
         if e[0] == "idx" and e[1][0] == "var" and e[1][1] in self.tracked:
@@ -427,6 +450,28 @@ class Ctx:
         if e[0] == "idx" and e[1][0] == "field" and e[1][2] in self.field_arrays:
             return self.field_arrays[e[1][2]], e[2]
         return None
+
+    def is_guard_return(self, x):
+        """`if (<int condition>) { return; }` without else"""
+        a, b = x[2], x[3]
+        body = a[1] if a[0] == "block" else [a]
+        return len(body) == 1 and body[0][0] == "return" and body[0][1] is None and b == ("block", []) and self.is_int_expr(x[1])
+
+    def tracked_reads(self, e):
+        """slots of the tracked scalars mentioned in an (opaque) expression, in order of appearance"""
+        out = []
+        def walk(x):
+            if isinstance(x, tuple):
+                if len(x) >= 2 and x[0] == "var" and x[1] in self.scalars:
+                    if self.scalars[x[1]] not in out:
+                        out.append(self.scalars[x[1]])
+                for y in x[1:]:
+                    walk(y)
+            elif isinstance(x, list):
+                for y in x:
+                    walk(y)
+        walk(e)
+        return out
 
     def idx_args(self, arr, v):
         return [str(self.array_ids[arr]), v] if self.array_ids is not None else [v]
@@ -437,6 +482,22 @@ class Ctx:
             raise TranslateError("chainskel: indirect call")
         if name == "assert":
             return None
+        if self.recursive and name == self.fname:
+            if len(e[2]) != len(self.formals):
+                raise TranslateError("chainskel: %s: recursive call with %d arguments" % (self.fname, len(e[2])))
+            binds, vals = [], {}
+            for f, a in zip(self.formals, e[2]):
+                if f in self.ptrs:
+                    tb = self.tracked_base(a)
+                    if not tb or tb[0] != f:
+                        raise TranslateError("chainskel: %s: recursive call passes %r for the tracked pointer %s" % (self.fname, a, f))
+                    vals[self.ptrs[f]], _ = self.ie(tb[1], binds)
+                elif f in self.params:
+                    vals[f], _ = self.ie(a, binds)
+                elif not (a[0] == "var" and a[1] == f):
+                    raise TranslateError("chainskel: %s: recursive call changes the opaque argument %s" % (self.fname, f))
+            args = " ".join("(%s)" % vals[q] for q in self.params)
+            return "(fun s => %s)" % self.wrap(binds, "%s O row oracle fuel rf %s s" % (self.fname, args))
         if self.mentions_int_lvalue(e):
             raise TranslateError("chainskel: %s: call %s takes the address of an integer variable" % (self.fname, name))
         pat, args, binds, touches = "", [], [], False
@@ -473,7 +534,16 @@ class Ctx:
     def _stmts(self, st, out):
         k = st[0]
         if k == "block":
-            for x in st[1]:
+            items = st[1]
+            for n_, x in enumerate(items):
+                if self.recursive and x[0] == "if" and self.is_guard_return(x) and n_ + 1 < len(items):
+                    rest = []
+                    self.stmts(("block", items[n_ + 1:]), rest)
+                    binds = []; c = self.be(x[1], binds)
+                    out.append("(fun s => %s)" % self.wrap(binds, "(if %s then (fun s => s) s else %s s)" % (c, self.seq(rest))))
+                    return
+                if self.recursive and x[0] == "if" and self.is_guard_return(x):
+                    return                                                   # `if (c) return;` as the last statement
                 self.stmts(x, out)
         elif k == "decl":
             ty, items = st[1], st[2]
@@ -483,6 +553,8 @@ class Ctx:
                         binds = []; v, _ = self.ie(size, binds)
                         self.iarr.append(name); self.order.append((name, "arr"))
                         out.append('(fun s => %s)' % self.wrap(binds, '(if 0 < %s then { s with %s := IArr.new %s } else s.fail (.vla "%s" %s))' % (v, name, v, name, v)))
+                    elif self.recursive and init is not None and self.is_int_expr(init) and name in self.once:
+                        self.lets[name] = init          # per-frame constant: substituted (a state field would be clobbered by the inner call)
                     else:
                         if name not in self.vars:
                             self.vars[name] = INT_TYPES[ty]; self.order.append((name, "var"))
@@ -543,17 +615,29 @@ class Ctx:
                 if self.mentions_int_lvalue(st[1]):
                     raise TranslateError("chainskel: opaque condition over integer state")
                 k_ = self.noracle; self.noracle += 1
-                out.append("(fun s => if oracle %d then %s s else %s s)" % (k_, self.seq(a), self.seq(b)))
+                for slot in self.tracked_reads(st[1]):     # the condition reads these tracked scalars
+                    out.append("(fun s => %s)" % self.event("cond", "i", [ "(%d : Int)" % slot ]))
+                idx = "%d" % k_
+                if self.dyn_oracle and self.loopvars and self.loopvars[-1]:
+                    idx = "(%d + NORACLE * (s.%s).toNat)" % (k_, self.loopvars[-1])
+                out.append("(fun s => if oracle %s then %s s else %s s)" % (idx, self.seq(a), self.seq(b)))
         elif k in ("while", "for"):
+            lv = None
             if k == "for":
                 for x in st[1]:
                     self.stmts(x, out)
+                    if x[0] == "decl" and len(x[2]) == 1:
+                        lv = x[2][0][0]
+                    elif x[0] == "expr" and x[1][0] == "assign" and x[1][2][0] == "var":
+                        lv = x[1][2][1]
                 cond, body, step = st[2], st[4], st[3]
             else:
                 cond, body, step = st[1], st[2], []
             idx = self.nloop; self.nloop += 1
             inner = []
+            self.loopvars.append(lv if lv in self.vars else None)
             self.stmts(body, inner)
+            self.loopvars.pop()
             for x in step:
                 self.stmts(x, inner)
             binds = []; c = self.be(cond, binds)
@@ -594,12 +678,43 @@ class Ctx:
         return "O %s %s oracle fuel %s" % ("T" if self.table2d else "row", " ".join(self.consts), " ".join(self.params))
 
 
-def translate(src, fname, struct, int_params, table2d=None, row_ptr=None, tracked=(), consts=(), array_ids=None, field_arrays=None):
-    _, body = function_body(src, fname)
+def once_assigned(ast):
+    """names of locals that are declared with an initialiser and never assigned / incremented afterwards"""
+    decl, assigned = set(), set()
+    def walk(x):
+        if isinstance(x, tuple):
+            if x and x[0] == "decl":
+                for (name, size, init, ptr) in x[2]:
+                    if init is not None and size is None and not ptr:
+                        decl.add(name)
+                    walk(init)
+                return
+            if x and x[0] == "assign" and x[2][0] == "var":
+                assigned.add(x[2][1])
+            if x and x[0] == "post" and x[2][0] == "var":
+                assigned.add(x[2][1])
+            for y in x[1:]:
+                walk(y)
+        elif isinstance(x, list):
+            for y in x:
+                walk(y)
+    walk(ast)
+    return decl - assigned
+
+
+def translate(src, fname, struct, int_params, table2d=None, row_ptr=None, tracked=(), consts=(), array_ids=None, field_arrays=None,
+              scalars=None, dyn_oracle=False, recursive=False, ptrs=None):
+    formals, body = function_body(src, fname)
     ast = Parser(tokenize("{" + body + "}")).block()
     cx = Ctx(fname, struct, int_params, table2d, row_ptr, tracked, consts)
     cx.array_ids = array_ids
     cx.field_arrays = field_arrays or {}
+    cx.scalars = dict(scalars or {})
+    cx.dyn_oracle = dyn_oracle
+    cx.recursive = recursive
+    cx.ptrs = dict(ptrs or {})
+    cx.formals = [re.sub(r".*[\s*]", "", f.strip()) for f in formals.split(",")] if recursive else []
+    cx.once = once_assigned(ast) if recursive else set()
     top = []
     cx.stmts(ast, top)
     fields = ["  %s : %s" % (n, "Int" if k == "var" else "IArr") for n, k in cx.order]
@@ -612,9 +727,16 @@ def translate(src, fname, struct, int_params, table2d=None, row_ptr=None, tracke
            "def %s.step {σ : Type} (O : Obs σ) (f : %s σ → %s σ) (s : %s σ) : %s σ := if %s.live O s then f s else s" % ((struct,) * 6),
            "def %s.init {σ : Type} (o : σ) : %s σ := { %s, fault := none, obs := o }" % (struct, struct, init), ""]
     out += [x + "\n" for x in cx.loops]
-    out += ["/-- `%s`: integer skeleton -/" % fname,
-            "def %s %s (s : %s σ) : %s σ :=\n%s" % (fname, cx.sig(), struct, struct, cx.body_text(top)), ""]
-    return "\n".join(out), cx
+    if recursive:
+        out += ["/-- `%s`: integer skeleton; `rf` bounds the recursion depth (structural recursion), the pointer parameters" % fname,
+                "    %s are represented by their offsets %s -/" % (", ".join(cx.ptrs), ", ".join(cx.ptrs.values())),
+                "def %s %s (s : %s σ) : %s σ :=\n  match rf with\n  | 0 => s.fail .fuel\n  | rf + 1 =>\n%s"
+                % (fname, cx.sig().replace("(fuel : Nat)", "(fuel : Nat) (rf : Nat)"), struct, struct, cx.body_text(top, 4)), ""]
+    else:
+        out += ["/-- `%s`: integer skeleton -/" % fname,
+                "def %s %s (s : %s σ) : %s σ :=\n%s" % (fname, cx.sig(), struct, struct, cx.body_text(top)), ""]
+    txt = "\n".join(out).replace("NORACLE", str(max(cx.noracle, 1)))
+    return txt, cx
 
 
 def generate(repo, outdir):
@@ -625,12 +747,23 @@ def generate(repo, outdir):
     txt, _ = translate(src, "ec_eval_even_strategy", "EvenSt", [("isog_len", "int"), ("points_len", "int")],
                        table2d="STRATEGY4", consts=[("TORSION_PLUS_EVEN_POWER", "u64")])
     parts.append(txt)
+    # the naive chain: no table, the points big_K / small_K are the slots 0 / 1; the singular test may differ per iteration
+    txt, _ = translate(src, "ec_eval_small_chain", "SmallSt", [("len", "int"), ("len_points", "int")],
+                       scalars={"big_K": 0, "small_K": 1}, dyn_oracle=True)
+    parts.append(txt)
     src2 = preprocess(open(os.path.join(repo, "src/hd/ref/hdx/theta_isogenies.c")).read())
     ids = {"points1": 1, "points2": 2, "Q1": 3, "Q2": 4, "steps": 5}
     for fn, st in (("theta_chain_comput_strategy", "ThetaSt"), ("theta_chain_comput_strategy_faster_no_eval", "ThetaFSt")):
         txt, _ = translate(src2, fn, st, [("n", "int"), ("eight_above", "int")], row_ptr="strategy",
                            array_ids=ids, field_arrays={"steps": "steps"})
         parts.append(txt)
+    # the balanced recursion: R1/R2 are pointers that may be advanced (offset parameters), P1/P2 the stacks
+    txt, _ = translate(src2, "theta_chain_comput_rec", "RecSt",
+                       [("len", "int"), ("index", "int"), ("advance", "int"), ("stacklen", "int"), ("total_length", "int"),
+                        ("R1_off", "int"), ("R2_off", "int"), ("P1_off", "int"), ("P2_off", "int")],
+                       array_ids={"R1": 6, "R2": 7, "P1": 8, "P2": 9, "steps": 5}, field_arrays={"steps": "steps"},
+                       recursive=True, ptrs={"R1": "R1_off", "R2": "R2_off", "P1": "P1_off", "P2": "P2_off"})
+    parts.append(txt)
     parts.append("end SqiGen.ChainSkel\n")
     ch = write_if_changed(os.path.join(outdir, "ChainSkel.lean"), "\n".join(parts))
     return ["SqiGen/ChainSkel.lean regenerated"] if ch else []
